@@ -62,5 +62,21 @@ Theorem c14_flag_duplicate_loop_idle :
   forall l : list N, NoDup l -> subs_cancel (nsort l) = nsort l.
 Proof. exact flag_subs_loop_idle. Qed.
 
+(* Promptness of ConditionsSet.Clean's fast path for id lists: its work is a function of the NUMBER of conjuncts, never of the
+   magnitudes of the numerals. The fast path is only taken when every conjunct admits exactly one id (a range with two
+   different ends makes it give up and leaves the set to the general loop); it then collects one id per conjunct, and its
+   result has at most as many conjuncts as the set had, of two conditions each. A fast path that walks through the ids of
+   a range (seeded change C14-r4a-n2) is not this function; the check's input stream carries ranges up to 2^63 wide. *)
+Theorem c14_id_fast_path_one_id_per_conjunct :
+  forall (cs : cset) (ids : list Z), simple_ids cs = Some ids ->
+    Forall (fun cc => exists i, extract_simple_id (conj_clean cc) = Some (i, i)) cs.
+Proof. exact simple_ids_single. Qed.
+Theorem c14_id_fast_path_work_bounded_by_conjunct_count :
+  forall cs : cset,
+    (forall ids, simple_ids cs = Some ids -> length ids = length cs) /\
+    (forall out, clean_simple_id cs = Some out ->
+       (length out <= length cs)%nat /\ Forall (fun c => length c = 2%nat) out).
+Proof. exact simple_id_work_bounded. Qed.
+
 Example c14_fuel_example : cf_search (Z.to_nat 12) 11 12 18 = Some 6.
 Proof. reflexivity. Qed.
